@@ -157,6 +157,12 @@ def run(case):
         acc = vs.mut_add(acc, y)
         acc = vs.mut_add(acc, z)
         o["mut_add3"] = flatten(sp, acc)
+        # accumulating into a vector the CALLER built (leaves may be immutable Python / NumPy scalars, not the 0-d arrays of zeros()):
+        # the value handed back is x + y, and the vector that is added (y) is never written to
+        xc, _ = build(sp, case["x"])
+        ysnap = json.dumps(flatten(sp, y))
+        o["mut_add_xy"] = flatten(sp, vs.mut_add(xc, y))
+        o["y_intact"] = bool(json.dumps(flatten(sp, y)) == ysnap)
         o["fresh"] = bool(fresh_equal and not shares)
         o["smul"] = flatten(sp, vs.scalar_mul(x, float(case["a"])))
         ip, ip2 = vs.inner_prod(x, y), vs.inner_prod(y, x)
